@@ -247,8 +247,8 @@ FromJ(j) ==
 (*   SeqsUpTo(P, w)   sequences over P of length 0..w  (w <= 3)            *)
 (*   Grow(P, L, ...)  P plus every container whose children are in P;      *)
 (*                    width = number of child slots (a dict entry has two: *)
-(*                    key and value); dicts with two entries are added     *)
-(*                    over the leaf level L only (keeps |U| ~ 10^4..10^5)  *)
+(*                    key and value); kind "dict2" adds dicts with two     *)
+(*                    entries over the leaf level L only (|U| ~ 10^4..10^5)*)
 (***************************************************************************)
 SeqsOfLen(P, n) ==
   CASE n = 0 -> {<<>>}
@@ -270,7 +270,9 @@ Grow(P, L, W, kinds, dcs) ==
      \cup (IF "fset" \in kinds THEN {FSetV(S) : S \in {T \in SubsetsUpTo(H, W) : PyDistinct(T)}} ELSE {})
      \cup (IF "dict" \in kinds
            THEN {DictV(<<>>, <<>>)} \cup {DictV(<<a>>, <<b>>) : a \in H, b \in P}
-                \cup {DictV(<<p[1], p[2]>>, <<c, d>>) : p \in {q \in HL \X HL : ~PyEq(q[1], q[2])}, c \in L, d \in L}
+           ELSE {})
+     \cup (IF "dict2" \in kinds
+           THEN {DictV(<<p[1], p[2]>>, <<c, d>>) : p \in {q \in HL \X HL : ~PyEq(q[1], q[2])}, c \in L, d \in L}
            ELSE {})
      \cup (IF "dc" \in kinds
            THEN UNION {{DCV(t, c, <<>>) : c \in SeqsFromTo(P, 1, W)} : t \in dcs \ {DCSlots}}
